@@ -93,4 +93,8 @@ def main(tier):
     provenance.check_undef(rep, {'ec_mad', 'ec_mul'}, 'MAD', 37)
     provenance.check_kwidth(rep, {'ec_mad', 'ec_mul'}, 'MAD', 37)
     gftype.check(rep, {'ec_mad', 'ec_mul'}, 'MAD', 37)
+    import bounds
+    bounds.check(rep, {'ec_mad', 'ec_mul'}, 'MAD', 37)
+    import gfrows
+    gfrows.check(rep, 35)
     return rep.finish()
